@@ -90,6 +90,10 @@ CHECKS = {
             'For every combination of fates inside the bounds, on both servers: after interval + 3 x timeout + two sweeps the session table holds exactly the live sessions; every dead, rejected or never-issued id is a silent no-op for send() and raises KeyError from get_session / save_session / session() / transport(); '
             'user data is visible only through its own session and is gone with it.',
             'Trusted: CrossHair (selector enumeration), z3, the simulated environment. Reads len/keys of server.sockets (the one private observation allowed by DESIGN.md).', '§3 C16'),
+    'C18': (SIM + '; differential: the same solver-enumerated history (34-step alphabet, length <= 3 quick / 4 thorough) drives the threaded server and the asyncio server in two kernels with the same virtual clock; normalised observations compared after every step',
+            'For every history inside the bounds the two servers produce the same application event log per session (kind, payload, order, reason of client/application ends), hand the client the same messages in the same order on the same transport, '
+            'answer every request of the step with the same status, and agree on liveness and transport of every session; silence-caused ends are only required within the heartbeat bound on both.',
+            'Trusted: CrossHair (selector enumeration), z3, the two simulated environments. Requests blocked by known finding F6 are not compared.', '§3 C18'),
 }
 
 NOT_BUILT = 'check not built yet in this round (see DESIGN.md §8 build order); not claimed until it runs'
